@@ -27,7 +27,7 @@ from lib.aximem14 import AXIMemSlave
 from lib import lfsr
 
 ID = "C14"
-REQUIRED_CLASSES = ["wrap", "random_addr_repeat", "pattern_duplicate_address", "k_errors_exact", "zero_errors_faithful", "preload=gen", "preload=model",
+REQUIRED_CLASSES = ["earlier_run_on_same_instances", "wrap", "random_addr_repeat", "pattern_duplicate_address", "k_errors_exact", "zero_errors_faithful", "preload=gen", "preload=model",
                     "checker_setting_differs"]      # classes that must occur in every run (else harness error: vacuous generator)
 LEVEL = "exploration"
 RULE = ("configuration = (port type native/AXI, data width 8..256, address width, BIST or pattern pair); case = (base, power-of-two "
@@ -211,6 +211,29 @@ def run_case(cfg, case, backend="fast", trace=None):
         return r.t
 
     bist = cfg["kind"] == "bist"
+    # ---- earlier use of the same instances (optional): the cores are reset before every run exactly like GenCheckDriver does, so a
+    #      previous run - whatever its settings - must not influence the run under test.  Memory and logs are put back afterwards.
+    r.pre_hung = None
+    pre = case.get("pre")
+    if pre:
+        W = cfg["dw"] // 8
+        for which in pre["runs"]:
+            mod = dut.gen if which == "gen" else dut.chk
+            npre = (pre["par"]["length"] // W) if bist else len(gs)
+            if phase(mod, pre["par"] if bist else None, npre) is None:
+                r.pre_hung = which
+                break
+            k = 0
+            while not slave.idle() and k < 64 * stall_limit(case["slave"]):
+                step()
+                k += 1
+            for _ in range(4):
+                step()
+        slave.mem.clear()
+        slave.mem.update(init or {})
+        del slave.log[:]
+        del slave.lost[:]
+        r.hung_after = None if r.pre_hung is None else r.hung_after
     # ---- generation ----
     r.gen_ran = case["mode"] == "gen"
     r.gen_done_t = None
@@ -315,6 +338,12 @@ def oracle(r):
         return a >> sh, a & ((1 << sh) - 1)
 
     gen_clean = True
+    if case.get("pre"):
+        classes.add("earlier_run_on_same_instances")
+        if r.pre_hung:
+            fs.append(F("generator_done" if r.pre_hung == "gen" else "checker_done", "timeout_in_earlier_run", "the %s did not finish an earlier run (%s, runs %s) on the same instance" % (
+                "generator" if r.pre_hung == "gen" else "checker", case["pre"]["par"], case["pre"]["runs"])))
+            return fs, classes, True
     # ---------------- generator ----------------
     if r.gen_ran:
         n = len(r.gs)
@@ -494,6 +523,15 @@ def case_strategy(draw, cfg, tier):
             g = c["gen"]
             W = cfg["dw"] // 8
             c["chk"] = dict(g, length=draw(st.integers(1, max(1, g["length"] // W))) * W)
+    # an earlier run on the same instances (generator and / or checker, other length and flags), in a third of the cases
+    if draw(st.integers(0, 2)) == 0:
+        runs = draw(st.sampled_from([["gen"], ["gen", "chk"], ["chk"], ["gen", "gen"], ["chk", "gen"]]))
+        par = None
+        if cfg["kind"] == "bist":
+            g = c["gen"]
+            W = cfg["dw"] // 8
+            par = dict(g, length=draw(st.integers(1, 9)) * W, rd=draw(st.sampled_from([1, 1, 0])), ra=draw(st.integers(0, 1)))
+        c["pre"] = dict(runs=runs, par=par)
     return c
 
 
